@@ -339,9 +339,32 @@ func judge(t *trie.Trie, truth []kv, q resp, more bool, class int64, pan string)
 	}
 	exact := len(q.keys) == len(q.vals) && sameRun(q.keys, q.vals, want)
 	if len(q.keys) == 0 && !q.nilProof {
-		exact = !beyond
+		exact = !beyond && len(q.vals) == 0
 	}
 	if accepted {
+		// an accepted run consists of entries of the trie, values non-empty: checked on its own,
+		// before (and whatever) the comparison with the interval's contents says
+		if len(q.keys) == len(q.vals) {
+			for i, k := range q.keys {
+				if len(q.vals[i]) == 0 {
+					return fmt.Sprintf("accepted a run containing an empty value (a deletion) at position %d of %d (%s)", i, len(q.keys), branchOf(q))
+				}
+				if len(k) > 0 || !q.nilProof {
+					found := false
+					for _, e := range truth {
+						if bytes.Equal(e.k, k) {
+							found = true
+							if !bytes.Equal(e.v, q.vals[i]) {
+								return fmt.Sprintf("accepted a run whose value at position %d differs from the trie's (%s)", i, branchOf(q))
+							}
+						}
+					}
+					if !found {
+						return fmt.Sprintf("accepted a run containing a key that is not in the trie, at position %d of %d (%s)", i, len(q.keys), branchOf(q))
+					}
+				}
+			}
+		}
 		// soundness, for every proof set
 		startRelated := false // the start key is a proper prefix of a key of the trie or extends one:
 		for _, e := range truth { // outside the guard "keys and start key of one fixed length"; observed, not judged
@@ -675,6 +698,49 @@ func tamperAll(t *trie.Trie, truth []kv, h resp, cands [][]byte, other *trie.Tri
 			q.vals = insertAt(q.vals, pos, []byte{0x2a, 0x2b})
 			return true
 		})
+	}
+	{ // inject an (absent key, EMPTY value) pair: at its sorted position for every candidate, and at
+		// position 0 (the start key itself / the predecessor of the first key) and at the end (the
+		// successor of the last key); the injected key's own proof is added, so that it may be an edge
+		extra := append([][]byte{}, cands...)
+		if len(h.first) > 0 {
+			extra = append(extra, h.first)
+		}
+		if n > 0 {
+			if d := dec(h.keys[0]); d != nil {
+				extra = append(extra, d)
+			}
+			if u := inc(h.keys[n-1]); u != nil {
+				extra = append(extra, u)
+			}
+		} else if len(h.first) > 0 {
+			if u := inc(h.first); u != nil {
+				extra = append(extra, u)
+			}
+		}
+		if len(truth) > 0 {
+			extra = append(extra, make([]byte, len(truth[0].k)))
+		}
+		seen := map[string]bool{}
+		for _, ck := range extra {
+			ck := ck
+			if present(ck) || seen[string(ck)] || len(ck) == 0 {
+				continue
+			}
+			seen[string(ck)] = true
+			add(func(q *resp) bool {
+				if !q.nilProof && bytes.Compare(ck, q.first) < 0 {
+					return false // would only trip the "preceding the requested range" check
+				}
+				pos := sort.Search(len(q.keys), func(i int) bool { return bytes.Compare(q.keys[i], ck) >= 0 })
+				q.keys = insertAt(q.keys, pos, common.CopyBytes(ck))
+				q.vals = insertAt(q.vals, pos, []byte{})
+				if !q.nilProof {
+					q.proof = union(q.proof, proveNodes(t, ck))
+				}
+				return true
+			})
+		}
 	}
 	if n > 0 { // inject out of order
 		add(func(q *resp) bool {
@@ -1171,7 +1237,7 @@ func main() {
 			"(2) random tries of 1-8 keys (random 32-byte keys as snap uses, 32-byte keys sharing 29+ byte prefixes, 1/2/3-byte keys over small alphabets) with EVERY run boundary: " +
 			"start key = each key, its successor and predecessor, the zero key, the all-0xff key; last entry = each entry at or after it; every honest empty run; the whole trie without proof; " +
 			"(3) random tries of 1-120 keys (the same styles plus mixed-length keys where keys are prefixes of others) with random runs. " +
-			"Honest responses carry the genuine Prove() nodes of the start key and of the last key; each is followed by tamperings: drop / duplicate / reorder / inject (sorted and unsorted) / re-key entries, " +
+			"Honest responses carry the genuine Prove() nodes of the start key and of the last key; each is followed by tamperings: drop / duplicate / reorder / inject (sorted and unsorted) / re-key entries, inject an (absent key, empty value) pair at position 0 / middle / end with its own proof, " +
 			"alter / lengthen / empty a value, swap two values, claim a shorter run, keys-values length mismatch, drop or damage each proof node, one edge proof only, truncated edge proofs, proofs of other keys, " +
 			"nil proof for a partial run, empty proof set, start key moved (with and without an honest proof of the new one), start key moved below an omitted entry, proof set bloated with another trie's nodes, another trie's root, damaged root. " +
 			"(4) hand-made proof nodes no trie produces (leaf with empty value, extension over an embedded leaf, garbage root, single-child branch, nested empty-key extensions, branch value next to children, hash-linked empty-key extension): model vs implementation only, no oracle. " +
